@@ -585,6 +585,13 @@ type Dialer struct {
 	mu    sync.Mutex
 }
 
+// SetFail makes subsequent Dial calls fail (true) or succeed again (false).
+func (d *Dialer) SetFail(on bool) {
+	d.mu.Lock()
+	d.Fail = on
+	d.mu.Unlock()
+}
+
 func (d *Dialer) Dial(network, address string) (net.Conn, error) {
 	d.mu.Lock()
 	d.Dials++
